@@ -27,6 +27,12 @@ type LoopDir struct {
 	Bounded    bool // unroll bound not implied by code: bounded stand-in
 }
 
+// CallSiteDir: `//@ callsite <callee text>: <expr>`.
+type CallSiteDir struct {
+	Callee string
+	Expr   string
+}
+
 type Directives struct {
 	Props   []string
 	Mode    *Mode
@@ -44,6 +50,7 @@ type Directives struct {
 	GuardErrors bool // every non-nil error obtained from a callee leads to a non-nil returned error
 	CyclicLemma bool // lemma on a cycle of lemma uses (uses inside the cycle give no facts)
 	Decreases string // lemma: termination measure for self-recursive (inductive) use
+	CallSites []CallSiteDir // assertions checked in the caller's scope immediately before a named call
 	PureFuncValues bool // calls through func-typed variables are uninterpreted pure functions in this VC
 	SpecFrame bool // emit pairwise frame facts for spec applications over slices (window-only dependence)
 	Uninterp bool // spec function: always an uninterpreted function (its Go body is only used when replaying)
@@ -139,6 +146,11 @@ func parseDirectives(cg *ast.CommentGroup) *Directives {
 			d.SpecFrame = true
 		case "pure-funcvalues":
 			d.PureFuncValues = true
+		case "callsite":
+			rest := strings.TrimSpace(strings.TrimPrefix(line, "callsite"))
+			if i := strings.Index(rest, ":"); i > 0 {
+				d.CallSites = append(d.CallSites, CallSiteDir{strings.TrimSpace(rest[:i]), strings.TrimSpace(rest[i+1:])})
+			}
 		case "decreases":
 			d.Decreases = strings.TrimSpace(strings.TrimPrefix(strings.TrimSpace(line), "decreases"))
 		case "guard-errors":
